@@ -21,14 +21,22 @@ struct Parsed {
   render: String,
   /// (loc id, name, is_binder, start position)
   occ: Vec<(usize, String, bool, Position)>,
+  /// position of the last character of every occurrence's token
+  occ_end: Vec<Position>,
   posmap: HashMap<String, usize>,
   formatted: String,
   loc_mismatch: Vec<String>,
+  var_positions: Vec<String>,
 }
 
 fn parse(src: &str) -> Option<Parsed> {
+  parse_as(src, "Test")
+}
+
+fn parse_as(src: &str, module_name: &str) -> Option<Parsed> {
   let mut heap = Heap::new();
-  let mref = heap.alloc_module_reference_from_string_vec(vec!["Test".to_string()]);
+  let mref = heap
+    .alloc_module_reference_from_string_vec(module_name.split('.').map(|s| s.to_string()).collect());
   let mut errors = ErrorSet::new();
   let m = samlang_parser::parse_source_module_from_text(src, mref, &mut heap, &mut errors);
   if errors.has_errors() {
@@ -41,10 +49,19 @@ fn parse(src: &str) -> Option<Parsed> {
   d.module(&m);
   let render = d.render(&r, &ssa_errors);
   let occ = d.occurrences.iter().map(|(l, n, b)| (*l, n.clone(), *b, d.loc_list[*l].start)).collect();
+  let occ_end = d
+    .occurrences
+    .iter()
+    .map(|(l, _, _)| {
+      let loc = d.loc_list[*l];
+      if loc.end.0 == loc.start.0 && loc.end.1 > loc.start.1 { Position(loc.end.0, loc.end.1 - 1) } else { loc.start }
+    })
+    .collect();
   let posmap =
     d.loc_list.iter().enumerate().map(|(i, l)| (l.pretty_print_without_file(), i)).collect();
   let loc_mismatch = d.loc_mismatch.clone();
-  Some(Parsed { dump: d.out.clone(), render, occ, posmap, formatted, loc_mismatch })
+  let var_positions: Vec<String> = d.var_positions.iter().cloned().collect();
+  Some(Parsed { dump: d.out.clone(), render, occ, occ_end, posmap, formatted, loc_mismatch, var_positions })
 }
 
 fn new_state(src: &str) -> (ServerState, ModuleReference) {
@@ -65,6 +82,42 @@ fn ssa(src: &str) -> String {
   }
 }
 
+/// answers of definition_location / all_references at the first and at the last character of
+/// every local-variable occurrence of module `mref` (the two must agree)
+fn answers_for(p: &Parsed, state: &ServerState, mref: &ModuleReference) -> String {
+  let id = |l: &samlang_ast::Location| match p.posmap.get(&l.pretty_print_without_file()) {
+    Some(i) => i.to_string(),
+    None => format!("?{}", l.pretty_print_without_file()),
+  };
+  let at = |pos: Position| {
+    let def = query::definition_location(state, mref, pos).map(|l| id(&l)).unwrap_or("none".to_string());
+    let mut refs: Vec<usize> = Vec::new();
+    let mut odd = Vec::new();
+    for l in query::all_references(state, mref, pos) {
+      match p.posmap.get(&l.pretty_print_without_file()) {
+        Some(i) => refs.push(*i),
+        None => odd.push(l.pretty_print_without_file()),
+      }
+    }
+    refs.sort();
+    let mut r: Vec<String> = refs.iter().map(|i| i.to_string()).collect();
+    r.extend(odd.into_iter().map(|s| format!("?{s}")));
+    format!("{}:{}", def, r.join("+"))
+  };
+  let mut answers = Vec::new();
+  for (k, (locid, _, _, pos)) in p.occ.iter().enumerate() {
+    let a1 = at(*pos);
+    let a2 = at(p.occ_end[k]);
+    if a1 == a2 {
+      answers.push(format!("{}:{}", locid, a1));
+    } else {
+      answers.push(format!("{}:{}|at-token-end:{}", locid, a1, a2));
+    }
+  }
+  let occ: Vec<String> = p.occ.iter().map(|o| o.0.to_string()).collect();
+  format!("{};; {} => {}", p.dump, occ.join(" "), answers.join(","))
+}
+
 fn q(src: &str) -> String {
   let p = match parse(src) {
     None => return "syntax".to_string(),
@@ -76,28 +129,37 @@ fn q(src: &str) -> String {
     let d = format!("{:?}", e.detail);
     return format!("rejected {} at {}", d.split(|c: char| !c.is_ascii_alphanumeric()).next().unwrap_or("?"), e.location.pretty_print_without_file());
   }
-  let id = |l: &samlang_ast::Location| match p.posmap.get(&l.pretty_print_without_file()) {
-    Some(i) => i.to_string(),
-    None => format!("?{}", l.pretty_print_without_file()),
-  };
-  let mut answers = Vec::new();
-  for (locid, _, _, pos) in &p.occ {
-    let def = query::definition_location(&state, &mref, *pos).map(|l| id(&l)).unwrap_or("none".to_string());
-    let mut refs: Vec<usize> = Vec::new();
-    let mut odd = Vec::new();
-    for l in query::all_references(&state, &mref, *pos) {
-      match p.posmap.get(&l.pretty_print_without_file()) {
-        Some(i) => refs.push(*i),
-        None => odd.push(l.pretty_print_without_file()),
-      }
-    }
-    refs.sort();
-    let mut r: Vec<String> = refs.iter().map(|i| i.to_string()).collect();
-    r.extend(odd.into_iter().map(|s| format!("?{s}")));
-    answers.push(format!("{}:{}:{}", locid, def, r.join("+")));
+  answers_for(&p, &state, &mref)
+}
+
+/// the same for a set of modules that import each other (json {module name: text}), std added:
+/// `name :: <dump> ;; <occ> => <answers>` per module, joined by ` ||| `
+fn qmulti(json: &str) -> String {
+  let v: serde_json::Value = serde_json::from_str(json).expect("json");
+  let mut heap = Heap::new();
+  let mut sources: HashMap<ModuleReference, String> =
+    samlang_parser::builtin_std_raw_sources(&mut heap).into_iter().collect();
+  let mut mods: Vec<(String, ModuleReference, String)> = Vec::new();
+  for (name, text) in v.as_object().expect("object") {
+    let m = heap.alloc_module_reference_from_string_vec(name.split('.').map(|s| s.to_string()).collect());
+    sources.insert(m, text.as_str().unwrap().to_string());
+    mods.push((name.clone(), m, text.as_str().unwrap().to_string()));
   }
-  let occ: Vec<String> = p.occ.iter().map(|o| o.0.to_string()).collect();
-  format!("{};; {} => {}", p.dump, occ.join(" "), answers.join(","))
+  mods.sort_by(|a, b| a.0.cmp(&b.0));
+  let state = ServerState::new(heap, false, sources);
+  let mut out = Vec::new();
+  for (name, m, text) in &mods {
+    if !state.get_errors(m).is_empty() {
+      out.push(format!("{name} :: rejected"));
+      continue;
+    }
+    match parse_as(text, name) {
+      None => out.push(format!("{name} :: syntax")),
+      Some(p) if !p.loc_mismatch.is_empty() => out.push(format!("{name} :: locinv {}", p.loc_mismatch.join(","))),
+      Some(p) => out.push(format!("{name} :: {}", answers_for(&p, &state, m))),
+    }
+  }
+  out.join(" ||| ")
 }
 
 /// names dropped from the S[..]/C[..] parts (`name=loc` -> `=loc`), so that two analyses can be
@@ -266,6 +328,8 @@ fn main() {
     let r = catch_unwind(AssertUnwindSafe(|| match t[0] {
       "ssa" => ssa(&arg),
       "q" => q(&arg),
+      "qmulti" => qmulti(&arg),
+      "vp" => parse(&arg).map(|p| p.var_positions.join(" ")).unwrap_or("syntax".to_string()),
       "rn" => rn(&arg, Some(3)),
       "rnall" => rn(&arg, None),
       _ => "bad-op".to_string(),
